@@ -42,6 +42,7 @@ def extract(ctx):
     su = Source(os.path.join(ctx.repo, SU))
     ut = tail_of(su, r'inline\s+RamUnsigned\s+RamUnsignedFromString\s*\([^)]*\)\s*\{', log, 'RamUnsignedFromString')
     st = tail_of(su, r'inline\s+RamSigned\s+RamSignedFromString\s*\([^)]*\)\s*\{', log, 'RamSignedFromString')
+    fb, _ = su.body(r'inline\s+RamFloat\s+RamFloatFromString\s*\([^)]*\)\s*\{')
     csv = Source(os.path.join(ctx.repo, CSV))
     rb, _ = csv.body(r'RamUnsigned\s+readRamUnsigned\s*\([^)]*\)\s*\{')
 
@@ -55,6 +56,7 @@ def extract(ctx):
         log['R13 throw -> vx_throw(); return'] = log.get('R13 throw -> vx_throw(); return', 0) + n3
         return t
     ut2, st2 = rules(ut, 'RamUnsigned'), rules(st, 'RamSigned')
+    ft2 = rules(fb, 'RamFloat')
     rb2 = strip_comments(rb)
     rb2, n = re.subn(r'\bRamUnsignedFromString\(', 'vx_RamUnsignedFromString(', rb2)
     if n != 3:
@@ -64,15 +66,16 @@ def extract(ctx):
     text = ('#include <string>\n#include <stdexcept>\n#include <cstddef>\n#include <cassert>\n#include "ramtypes.hpp"\n#include "vx_numparse.h"\nnamespace souffle {\n'
             'RamUnsigned ustr_tail(const std::string& tmp, std::size_t* position, const int base, bool parsingBinary) {\n%s}\n'
             'RamSigned sstr_tail(const std::string& tmp, std::size_t* position, const int base, bool parsingBinary) {\n%s}\n'
+            '// whole body of RamFloatFromString\nRamFloat fstr_body(const std::string& str, std::size_t* position) {\n%s}\n'
             'struct CSVScaffold {\nRamUnsigned readRamUnsigned(const std::string& element, std::size_t& charactersRead) {\n%s}\n};\n}\n'
-            % (ut2, st2, rb2))
+            % (ut2, st2, ft2, rb2))
     ctx.write('extracted.hpp', text)
     ctx.rewrites.update(log)
     ctx.dropped += [
         'RamUnsignedFromString/RamSignedFromString: everything before the numeric tail (minus-sign rejection, base-0 prefix dispatch, '
         '0b stripping into binaryNumber, selection of tmp): std::string code outside the front end; the slicing is validated by checking '
         'that this prefix does not touch val or *position',
-        'RamFloatFromString (std::stof semantics), readRecord/readADT, the completeness check charactersRead != element.size(), error messages',
+        'readRecord/readADT, the completeness check charactersRead != element.size(), error messages',
     ]
     ctx.fact('StringUtil.h: the numeric tails are guarded only by RAM_DOMAIN_SIZE (default 32)', True)
 
@@ -87,6 +90,9 @@ def harnesses(ctx):
         Harness('numparse.sstr_tail', 'harness_sstr', cpp=cpp, c=c, enforce='h_sstr_tail', must_have=['postcondition'],
                 clause='signed literal: the stored value is the value std::stoi produced (range rule delegated to stoi)',
                 funcs=['souffle::RamSignedFromString (numeric tail)']),
+        Harness('numparse.fstr', 'harness_fstr', cpp=cpp, c=c, enforce='h_fstr', must_have=['postcondition'],
+                clause='float literal: the stored value is the value the std parser produced, and a finite literal is never silently stored as an infinity (range rule)',
+                funcs=['souffle::RamFloatFromString']),
         Harness('numparse.readRamUnsigned', 'harness_rru', cpp=cpp, c=c, enforce='h_readRamUnsigned', must_have=['postcondition'],
                 clause='CSV unsigned column: the value returned is the value RamUnsignedFromString produced (no narrowing through RamSigned)',
                 funcs=['souffle::ReadStreamCSV::readRamUnsigned']),
@@ -97,20 +103,20 @@ def replay(ctx, h, r, ins, tr):
     """native replay on the REAL header: call souffle::RamUnsignedFromString / RamSignedFromString on the decimal
     rendering of the counterexample value"""
     last = (tr or {}).get('last', {})
-    key = {'numparse.ustr_tail': 'in_stoul_val', 'numparse.sstr_tail': 'in_stoi_val', 'numparse.readRamUnsigned': 'in_ufs_val'}[h.name]
+    key = {'numparse.fstr': 'in_stod_val', 'numparse.ustr_tail': 'in_stoul_val', 'numparse.sstr_tail': 'in_stoi_val', 'numparse.readRamUnsigned': 'in_ufs_val'}[h.name]
     v = last.get(key)
     if v is None:
         return None, 'no value for %s in the trace' % key
-    v = re.sub(r'[uUlL]+$', '', str(v))
+    v = re.sub(r'[uUlLfF]+$', '', str(v)) if h.name != 'numparse.fstr' else str(v).rstrip('fFlL')
     exe = os.path.join(ctx.work, 'replay_numparse')
     p = subprocess.run(['g++', '-std=c++17', '-I', os.path.join(ctx.repo, 'src/include'), os.path.join(HERE, '..', '..', 'replay', 'numparse', 'replay.cpp'), '-o', exe],
                        stdout=subprocess.PIPE, stderr=subprocess.STDOUT)
     if p.returncode != 0:
         return None, 'native replay build failed: ' + p.stdout.decode()[:300]
-    mode = {'numparse.ustr_tail': 'u', 'numparse.sstr_tail': 'i', 'numparse.readRamUnsigned': 'c'}[h.name]
+    mode = {'numparse.fstr': 'f', 'numparse.ustr_tail': 'u', 'numparse.sstr_tail': 'i', 'numparse.readRamUnsigned': 'c'}[h.name]
     q = subprocess.run([exe, mode, v], stdout=subprocess.PIPE, stderr=subprocess.STDOUT)
     out = q.stdout.decode().strip()
-    return q.returncode == 1, 'real %s on literal "%s": %s' % ({'u': 'RamUnsignedFromString', 'i': 'RamSignedFromString', 'c': 'ReadStreamCSV unsigned column'}[mode], v, out)
+    return q.returncode == 1, 'real %s on literal "%s": %s' % ({'f': 'RamFloatFromString', 'u': 'RamUnsignedFromString', 'i': 'RamSignedFromString', 'c': 'ReadStreamCSV unsigned column'}[mode], v, out)
 
 
 ASSUMPTIONS = [
@@ -126,5 +132,6 @@ MUTANTS = [
     dict(name='signed uses stol', file=SU, find=r'val = std::stoi\(tmp, position, base\);', repl='val = std::stol(tmp, position, base);', expect=r'numparse\.sstr_tail :: .*postcondition'),
     dict(name='unsigned position += 3', file=SU, find=r'(return RamUnsignedFromString\(str, position\);.*?\*position \+= )2', repl=r'\g<1>3', expect=r'numparse\.ustr_tail :: .*postcondition'),
     dict(name='readRamUnsigned narrows via short', file=CSV, find=r'RamSigned value = 0;', repl='short value = 0;', expect=r'numparse\.readRamUnsigned :: .*postcondition'),
+    dict(name='float parsed as double and narrowed', file=SU, find=r'val = std::stof\(str, position\);', repl='val = std::stod(str, position);', expect=r'numparse\.fstr :: .*postcondition'),
     dict(name='unsigned range check off by one', file=SU, find=r'if \(val > std::numeric_limits<RamUnsigned>::max\(\)\)', repl='if (val > std::numeric_limits<RamSigned>::max())', expect=r'numparse\.ustr_tail :: .*postcondition'),
 ]
